@@ -28,8 +28,8 @@ HN = Harness("C14", ["OQ.Base.CaseEq", "OQ.State.Runner", "OQ.State.RunnerCases"
              "record_bitstrings); calls: run / batch (integer or per-circuit list) / distribution (integer or None) / "
              "get_wavefunction / exact expectation; about 40% of the calls carry invalid arguments (count <= 0, list of the "
              "wrong length, list with a non-positive entry, None for a base runner, unbound symbols, operator wider than the "
-             "register); circuits of width 0-3 including empty and idle-qubit ones, symbolic rotations and (simulators "
-             "only) MultiPhaseOperation; non-trivial = at least two successful calls and one rejected call in the history")
+             "register); circuits of width 0-3 including empty and idle-qubit ones, symbolic rotations and "
+             "MultiPhaseOperation (a non-gate operation; under trackers this is the known finding F28); non-trivial = at least two successful calls and one rejected call in the history")
 
 THETA = sympy.Symbol("theta")
 KIND_NAMES = {"X": 0, "H": 1, "Z": 2, "T": 3, "CNOT": 4, "RX": 5, "RY": 6}
@@ -61,10 +61,11 @@ def kind_of(op):
     return KIND_NAMES[op.gate.name]
 
 def abstract(circuit):
-    return (int(circuit.n_qubits), [kind_of(op) for op in circuit.operations], bool(circuit.free_symbols))
+    return (int(circuit.n_qubits), [kind_of(op) for op in circuit.operations], bool(circuit.free_symbols),
+            all(isinstance(op, GateOperation) for op in circuit.operations))
 
 def c_circuit(a):
-    return f"(mkC {cz(a[0])} {clist(a[1], cz)} {cbool(a[2])})"
+    return f"(mkC {cz(a[0])} {clist(a[1], cz)} {cbool(a[2])} {cbool(a[3])})"
 
 # ------------------------------------------------------------------ instrumented runners
 
@@ -85,14 +86,25 @@ _patch_apply(GateOperation)
 _patch_apply(MultiPhaseOperation)
 
 class Spy:
-    """Mixin remembering the object returned by the last public call."""
+    """Mixin remembering the object returned by the last outermost public call on this object
+    (nested self-calls, e.g. the default batch loop, do not count; an exception leaves None)."""
     last = None
+    _depth = 0
+    def _spy(self, fn, *a):
+        self._depth += 1
+        try:
+            r = fn(*a)
+        finally:
+            self._depth -= 1
+        if self._depth == 0:
+            self.last = r
+        return r
     def run_and_measure(self, circuit, n_samples):
-        r = super().run_and_measure(circuit, n_samples); self.last = r; return r
+        return self._spy(super().run_and_measure, circuit, n_samples)
     def run_batch_and_measure(self, circuits, n_samples):
-        r = super().run_batch_and_measure(circuits, n_samples); self.last = r; return r
+        return self._spy(super().run_batch_and_measure, circuits, n_samples)
     def get_measurement_outcome_distribution(self, circuit, n_samples):
-        r = super().get_measurement_outcome_distribution(circuit, n_samples); self.last = r; return r
+        return self._spy(super().get_measurement_outcome_distribution, circuit, n_samples)
 
 class RecBase(Spy, BaseCircuitRunner):
     def __init__(self, over, log):
@@ -160,7 +172,7 @@ def build_runner(spec, log, tmpdir, depth=0):
     if k == "tracker":
         inner, lit = build_runner(spec["inner"], log, tmpdir, depth + 1)
         return (RecTracker(inner, os.path.join(tmpdir, f"raw_{depth}.json"), spec.get("bits", False)),
-                f"(RTrack 0%Z 0%Z [] {lit})")
+                f"(RTrack 0%Z 0%Z [] [] {lit})")
     raise ValueError(k)
 
 def levels(r):
@@ -187,7 +199,10 @@ def read_file(path):
     """records in the tracker's file: abstract ('M', circuit, shots, keylen) / ('D', circuit, shots) and raw"""
     if not os.path.exists(path):
         return [], []
-    raw = json.load(open(path))["raw-data"]
+    return read_records(json.load(open(path))["raw-data"])
+
+def read_records(raw):
+    raw = json.loads(json.dumps(raw))
     recs = []
     for e in raw:
         a = abstract(circuit_from_dict(e["circuit"]))
@@ -271,8 +286,9 @@ def gen_call(rng, rspec):
     leaf = leaf_spec(rspec)
     tracked = rspec["kind"] == "tracker"
     is_sim = leaf["kind"] == "sim"
-    allow_mpo = is_sim and not tracked          # to_dict cannot serialise MultiPhaseOperation (see props/C14.json)
-    circ = lambda free=None: gen_circuit(rng, allow_mpo, rng.random() < 0.2 if free is None else free)
+    # to_dict cannot serialise MultiPhaseOperation: under a tracker such circuits hit the known finding F28
+    circ = lambda free=None: gen_circuit(rng, rng.random() < (0.1 if tracked else 0.6 if is_sim else 0.3),
+                                         rng.random() < 0.2 if free is None else free)
     bad = rng.random() < 0.4
     r = rng.random()
     if r < 0.3:
@@ -348,6 +364,7 @@ def _run_case(inp, tmpdir):
         op = call["op"]
         before_cnt = [(x.n_circuits_executed, x.n_jobs_executed) for x in lv]
         before_files = [read_file(t.raw_data_file_name) for t in trackers]
+        before_pending = [read_records(t.raw_data)[1] for t in trackers]
         del log[:]
         produced_before = len(leaf.produced) if leaf_is_base else 0
         for x in lv:
@@ -392,6 +409,9 @@ def _run_case(inp, tmpdir):
         events = to_segments(list(log))
         after_cnt = [(x.n_circuits_executed, x.n_jobs_executed) for x in lv]
         after_files = [read_file(t.raw_data_file_name) for t in trackers]
+        after_pending = [read_records(t.raw_data) for t in trackers]
+        call_circuits = cs if op == "batch" else [c]
+        nongate = any(not abstract(ci)[3] for ci in call_circuits)
         where = f"call {idx} {op}"
 
         # ---- shape of the outcome (for the model comparison)
@@ -418,7 +438,8 @@ def _run_case(inp, tmpdir):
             fails.append(("type", unmodelled))
         obs_lit.append("(" + ", ".join([out_lit, clist([c_event(e) for e in events]),
                                         clist([f"({cz(a)}, {cz(b)})" for a, b in after_cnt]),
-                                        clist([clist([c_record(r) for r in f[0]]) for f in after_files])]) + ")")
+                                        clist([clist([c_record(r) for r in f[0]]) for f in after_files]),
+                                        clist([clist([c_record(r) for r in f[0]]) for f in after_pending])]) + ")")
 
         # ---- oracle: the property text, directly
         # (1) invalid arguments are rejected with ValueError before anything runs
@@ -470,11 +491,25 @@ def _run_case(inp, tmpdir):
         # (4) tracker: passes the inner result through and writes a matching record
         for ti, t in enumerate(trackers):
             inner = lv[ti + 1]
+            raised_here = (st == "err") if ti == 0 else (lv[ti].last is None)
             res_here = out if ti == 0 else lv[ti].last
-            if op in ("run", "batch", "dist") and st == "ok":
+            stale = before_pending[ti]
+            if op in ("run", "batch", "dist") and raised_here and inner.last is not None:
+                fails.append(("F28" if nongate else "tracker",
+                              f"{where}: tracker level {ti} raised although the wrapped runner returned a result"))
+                if after_pending[ti][1] != stale:
+                    fails.append(("F28" if nongate else "tracker",
+                                  f"{where}: tracker level {ti} keeps {len(after_pending[ti][1])} records of the failed call in raw_data"))
+            if op in ("run", "batch", "dist") and not raised_here:
                 if res_here is not inner.last:
                     fails.append(("tracker", f"{where}: tracker level {ti} did not return the wrapped runner's object"))
                 raw = after_files[ti][1]
+                if stale:
+                    fails.append(("F28" if raw[:len(stale)] == stale else "tracker",
+                                  f"{where}: file of tracker level {ti} starts with {len(stale)} records left over from an earlier failed call"))
+                    raw = raw[len(stale):]
+                if after_pending[ti][1]:
+                    fails.append(("tracker", f"{where}: raw_data of tracker level {ti} not cleared after saving"))
                 if op == "run":
                     pairs = [(c, res_here)]
                 elif op == "batch":
@@ -499,15 +534,16 @@ def _run_case(inp, tmpdir):
                                number_of_gates=len(c.operations), number_of_shots=n)
                     if raw != [exp]:
                         fails.append(("tracker", f"{where}: distribution record differs from the returned object"))
-            elif st == "err" and after_files[ti][1] != before_files[ti][1]:
+            elif raised_here and after_files[ti][1] != before_files[ti][1]:
                 fails.append(("tracker", f"{where}: tracker file changed although the call raised"))
 
     chk = "false" if unmodelled else f"history_eqb {runner_lit} {clist(calls_lit)} {clist(obs_lit)}"
-    other = [m for t, m in fails if t != "F6"]
+    other = [m for t, m in fails if t not in ("F6", "F28")]
     f6 = [m for t, m in fails if t == "F6"]
-    return dict(chk=chk, oracle_ok=not fails, oracle_msg="; ".join((other or f6)[:4]),
-                sig="F6" if (f6 and not other) else None,
-                kind=runner_label(inp["runner"]) + ("+F6" if f6 else ""),
+    f28 = [m for t, m in fails if t == "F28"]
+    return dict(chk=chk, oracle_ok=not fails, oracle_msg="; ".join((other or f28 or f6)[:4]),
+                sig=None if (other or not fails) else ("F28" if f28 else "F6"),
+                kind=runner_label(inp["runner"]) + ("+F6" if f6 else "") + ("+F28" if f28 else ""),
                 nontrivial=n_ok >= 2 and n_rejected >= 1)
 
 # ------------------------------------------------------------------ witnesses
@@ -526,7 +562,22 @@ def w_f6():
     bad = any(len(b) != 0 for b in bs)
     return bad, f"SymbolicSimulator().run_and_measure(Circuit(), 3).bitstrings = {bs}"
 
-WITNESSES = {"F25": w_f25, "F6": w_f6}
+def w_f28():
+    d = tempfile.mkdtemp(prefix="c14_w_", dir="/var/tmp")
+    try:
+        f = os.path.join(d, "raw.json")
+        t = MeasurementTrackingBackend(SymbolicSimulator(seed=1), f)
+        st1, o1 = outcome(t.run_batch_and_measure, [Circuit([X(0)]), Circuit([MultiPhaseOperation((0.1, 0.2))])], 5)
+        ran = t.inner_backend.n_jobs_executed
+        st2, o2 = outcome(t.run_and_measure, Circuit([H(0)]), 3)
+        n = len(json.load(open(f))["raw-data"]) if os.path.exists(f) else None
+        bad = not (st1 == "ok" and st2 == "ok" and n == 1)
+        return bad, (f"tracker over SymbolicSimulator: run_batch_and_measure([X(0), MultiPhaseOperation], 5) -> {st1} {o1 if st1 == 'err' else ''} "
+                     f"after the wrapped runner executed {ran} jobs; the next run_and_measure(H(0), 3) -> {st2}, file holds {n} records for 1 result")
+    finally:
+        shutil.rmtree(d, ignore_errors=True)
+
+WITNESSES = {"F25": w_f25, "F6": w_f6, "F28": w_f28}
 
 if __name__ == "__main__":
     HN.main(gen, run_case, WITNESSES)
